@@ -190,6 +190,14 @@ func alphabet() []letter {
 		{"MoveTo(1,1)", func(x *exec) { x.ctx.MoveTo(1, 1) }, func(m *mrun) { m.pend.MoveTo(1, 1) }},
 		{"LineTo(4,0)", func(x *exec) { x.ctx.LineTo(4, 0) }, func(m *mrun) { m.pend.LineTo(4, 0) }},
 		{"LineTo(4,3)", func(x *exec) { x.ctx.LineTo(4, 3) }, func(m *mrun) { m.pend.LineTo(4, 3) }},
+		{"QuadTo(2,3,4,1)", func(x *exec) { x.ctx.QuadTo(2, 3, 4, 1) }, func(m *mrun) { m.pend.QuadTo(2, 3, 4, 1) }},
+		{"CubeTo(1,2,3,2,4,0)", func(x *exec) { x.ctx.CubeTo(1, 2, 3, 2, 4, 0) }, func(m *mrun) { m.pend.CubeTo(1, 2, 3, 2, 4, 0) }},
+		{"ArcTo(2,1,30,false,true,4,2)", func(x *exec) { x.ctx.ArcTo(2, 1, 30, false, true, 4, 2) }, func(m *mrun) { m.pend.ArcTo(2, 1, 30, false, true, 4, 2) }},
+		{"Arc(1,1,0,0,90)", func(x *exec) { x.ctx.Arc(1, 1, 0, 0, 90) }, func(m *mrun) { m.pend.Arc(1, 1, 0, 0, 90) }},
+		{"Close()", func(x *exec) { x.ctx.Close() }, func(m *mrun) { m.pend.Close() }},
+		{"SetCoordRect((1,2)-(6,5), 10, 6)", func(x *exec) { x.ctx.SetCoordRect(canvas.Rect{X0: 1, Y0: 2, X1: 6, Y1: 5}, 10, 6) },
+			// coordinates from (0,0)-(10,6) are mapped to the rectangle (1,2)-(6,5)
+			func(m *mrun) { m.cur.cview = mul(mTranslate(1, 2), mScale(5.0/10, 3.0/6)) }},
 		{"Fill()", func(x *exec) { x.ctx.Fill() }, func(m *mrun) {
 			st := m.cur.st
 			st.stroke = colNone
